@@ -595,8 +595,19 @@ func (q *queueWrap) Insert(prefix string, pkt packet.Packet, deadline time.Time,
 		q.n.W.R.Emit(rec.Ev{"op": "ack.cb", "n": q.n.ID, "s": prefix, "id": id, "tag": tag, "expired": expired})
 		cb(expired, stored, received)
 	}
-	err := q.real.Insert(prefix, pkt, deadline, wrapped)
-	q.n.W.R.Emit(rec.Ev{"op": "ack.insert", "n": q.n.ID, "s": prefix, "id": id, "kind": kind, "d": q.n.W.Ms(deadline), "tag": tag, "ok": err == nil})
+	// the entry becomes visible to Ack and Expire inside Insert: the event is written in the same critical section of the recorder,
+	// so that a callback racing with the registration (an acknowledgement already on its way when a sweep re-arms the entry) can
+	// never be recorded ahead of the registration it answers
+	var err error
+	done := false
+	q.n.W.R.Do(func() rec.Ev {
+		done = true
+		err = q.real.Insert(prefix, pkt, deadline, wrapped)
+		return rec.Ev{"op": "ack.insert", "n": q.n.ID, "s": prefix, "id": id, "kind": kind, "d": q.n.W.Ms(deadline), "tag": tag, "ok": err == nil}
+	})
+	if !done { // recorder switched off (scenario over): the table still has to work
+		err = q.real.Insert(prefix, pkt, deadline, wrapped)
+	}
 	return err
 }
 func (q *queueWrap) Ack(prefix string, pkt packet.Packet) error {
